@@ -404,13 +404,19 @@ Proof.
 Qed.
 
 (* ------------------------------------------------------------------ ReadFrom *)
-Lemma read_from_loop_C fuel : forall s total w, Cst w -> wf_src s -> wf_bytes (flat s) -> tl s = TEOF ->
+(* what ReadFrom reports when the source is exhausted: io.EOF is swallowed, any other
+   error of the source is handed to the caller *)
+Definition rf_err (s : src) : option werror := match tl s with TEOF => None | TFail => Some WDest end.
+
+(* any source, ending in EOF or failing: all its bytes are accepted, what leaves are
+   non-final fragments, and the message is dirty as soon as one byte was accepted *)
+Lemma read_from_loop_G fuel : forall s total w, Cst w -> wf_src s -> wf_bytes (flat s) ->
   2 * (14 + 2 * (len (w_buf w) + len (flat s))) <= max_int ->
   (rf_need s w <= fuel)%nat ->
-  exists w' s' fs, read_from_loop fuel s total w = (inr (total + len (flat s), None), w', s') /\
-    Step w w' fs (flat s) /\ w_dirty w' = true.
+  exists w' s' fs, read_from_loop fuel s total w = (inr (total + len (flat s), rf_err s), w', s') /\
+    Step w w' fs (flat s) /\ (tl s = TEOF \/ 0 < len (flat s) -> w_dirty w' = true).
 Proof.
-  induction fuel as [|f IH]; intros s total w Hc Hs Hwf Htl Hb Hf.
+  induction fuel as [|f IH]; intros s total w Hc Hs Hwf Hb Hf.
   { unfold rf_need in Hf. destruct (w_available w =? 0); lia. }
   cbn [read_from_loop]. pose proof (c_inv w Hc) as Hi. pose proof Hi as [H1 H2 H3 H4 H5].
   pose proof (inv_buflen_pos w Hi) as Hpos.
@@ -420,7 +426,7 @@ Proof.
     + destruct (Step_grow_nf (w_n w) w Hc ltac:(unfold w_n; lia) En) as (w1 & Hg & Hs1 & Hfit & Hdi & Hbuf).
       rewrite Hg. unfold w_n in Hfit.
       assert (Ha1: (w_available w1 =? 0) = false) by (unfold w_available, w_n; rewrite Hbuf; lia).
-      destruct (IH s total w1 (s_cst _ _ _ _ Hs1) Hs Hwf Htl) as (w' & s' & fs & Hr & Hs2 & Hd).
+      destruct (IH s total w1 (s_cst _ _ _ _ Hs1) Hs Hwf) as (w' & s' & fs & Hr & Hs2 & Hd).
       * rewrite Hbuf. exact Hb.
       * unfold rf_need in *. rewrite Ha1. rewrite Ea in Hf. lia.
       * exists w', s', ([] ++ fs). split; [exact Hr|]. split; [|exact Hd].
@@ -431,7 +437,7 @@ Proof.
       assert (Hb1: w_buf w1 = []) by reflexivity.
       assert (Hbl1: w_buflen w1 = w_buflen w) by reflexivity.
       assert (Ha1: (w_available w1 =? 0) = false) by (unfold w_available, w_n; rewrite Hb1, len_nil; lia).
-      destruct (IH s total w1 (s_cst _ _ _ _ Hs1) Hs Hwf Htl) as (w' & s' & fs & Hr & Hs2 & Hd).
+      destruct (IH s total w1 (s_cst _ _ _ _ Hs1) Hs Hwf) as (w' & s' & fs & Hr & Hs2 & Hd).
       * rewrite Hb1, len_nil. lia.
       * unfold rf_need in *. rewrite Ha1. rewrite Ea in Hf. lia.
       * eexists w', s', _. split; [exact Hr|]. split; [|exact Hd].
@@ -443,24 +449,52 @@ Proof.
     destruct (read1 (w_available w) s) as [[b e] s'] eqn:Er. cbn [fst snd] in Hlen, Hwb, Hwf'.
     assert (Hlb: len b <= w_available w) by lia. clear Hlen.
     assert (Hlb': len (w_buf w) + len b <= w_buflen w) by (unfold w_available, w_n in Hlb; lia).
-    pose proof (Step_buffer w b (w_dirty w) Hc Hwb Hlb' ltac:(auto)) as Hs1.
-    set (w1 := set_buf w (w_buf w ++ b) (w_dirty w)) in *.
+    assert (Hdd: w_dirty w = true -> w_dirty w || (0 <? len b) = true) by (intros ->; reflexivity).
+    pose proof (Step_buffer w b (w_dirty w || (0 <? len b)) Hc Hwb Hlb' Hdd) as Hs1.
+    set (w1 := set_buf w (w_buf w ++ b) (w_dirty w || (0 <? len b))) in *.
     destruct e as [e|].
-    + destruct Hr as (-> & Hfl & ->). rewrite Htl.
-      pose proof (Step_dirty w1 (s_cst _ _ _ _ Hs1)) as Hs2.
-      eexists _, _, _. split; [rewrite Hfl; reflexivity|]. split; [|reflexivity].
-      rewrite Hfl. exact (Step_trans _ _ _ _ _ _ _ Hs1 Hs2).
+    + destruct Hr as (-> & Hfl & ->). unfold rf_err. destruct (tl s) eqn:Htl.
+      * pose proof (Step_dirty w1 (s_cst _ _ _ _ Hs1)) as Hs2.
+        eexists _, _, _. split; [rewrite Hfl; reflexivity|]. split; [|reflexivity].
+        rewrite Hfl. exact (Step_trans _ _ _ _ _ _ _ Hs1 Hs2).
+      * eexists _, _, _. split; [rewrite Hfl; reflexivity|]. split; [rewrite Hfl; exact Hs1|].
+        intros [Hx|Hx]; [discriminate|]. rewrite Hfl in Hx. cbn in Hx. lia.
     + destruct Hr as (Hbne & Hfl & Hs' & Htl').
       assert (Hlb0: 0 < len b) by (destruct b; [congruence|rewrite len_cons; lia]).
       assert (Hlf: len (flat s) = len b + len (flat s')) by (rewrite Hfl, len_app; reflexivity).
+      assert (Hd1: w_dirty w1 = true).
+      { subst w1. wsimpl. replace (0 <? len b) with true by lia. apply orb_true_r. }
       destruct (IH s' (total + len b) w1 (s_cst _ _ _ _ Hs1) Hs' Hwf') as (w' & s'' & fs & Hr & Hs2 & Hd).
-      * congruence.
       * subst w1. wsimpl. rewrite len_app. lia.
       * unfold rf_need in *. rewrite Ea in Hf.
         assert (length (flat s) = length b + length (flat s'))%nat by (rewrite Hfl, app_length; reflexivity).
         unfold len in Hlb0. destruct (w_available w1 =? 0); lia.
-      * exists w', s'', ([] ++ fs). split; [rewrite Hr; replace (total + len b + len (flat s')) with (total + len (flat s)) by lia; reflexivity|].
-        split; [|exact Hd]. rewrite Hfl. exact (Step_trans _ _ _ _ _ _ _ Hs1 Hs2).
+      * exists w', s'', ([] ++ fs). split.
+        { rewrite Hr. unfold rf_err. rewrite Htl'.
+          replace (total + len b + len (flat s')) with (total + len (flat s)) by lia. reflexivity. }
+        split; [|intros _; exact (s_dirty _ _ _ _ Hs2 Hd1)]. rewrite Hfl. exact (Step_trans _ _ _ _ _ _ _ Hs1 Hs2).
+Qed.
+
+Lemma read_from_G s w : Cst w -> wf_src s -> wf_bytes (flat s) ->
+  2 * (14 + 2 * (len (w_buf w) + len (flat s))) <= max_int ->
+  exists w' s' fs, read_from s w = (inr (len (flat s), rf_err s), w', s') /\
+    Step w w' fs (flat s) /\ (tl s = TEOF \/ 0 < len (flat s) -> w_dirty w' = true).
+Proof.
+  intros Hc Hs Hwf Hb. unfold read_from.
+  destruct (read_from_loop_G (S (S (2 * length (flat s) + 4))) s 0 w Hc Hs Hwf Hb) as (w' & s' & fs & Hr & H).
+  - unfold rf_need. destruct (_ =? 0); lia.
+  - exists w', s', fs. rewrite Hr. auto.
+Qed.
+
+Lemma read_from_loop_C fuel : forall s total w, Cst w -> wf_src s -> wf_bytes (flat s) -> tl s = TEOF ->
+  2 * (14 + 2 * (len (w_buf w) + len (flat s))) <= max_int ->
+  (rf_need s w <= fuel)%nat ->
+  exists w' s' fs, read_from_loop fuel s total w = (inr (total + len (flat s), None), w', s') /\
+    Step w w' fs (flat s) /\ w_dirty w' = true.
+Proof.
+  intros s total w Hc Hs Hwf Htl Hb Hf.
+  destruct (read_from_loop_G fuel s total w Hc Hs Hwf Hb Hf) as (w' & s' & fs & Hr & Hst & Hd).
+  exists w', s', fs. unfold rf_err in Hr. rewrite Htl in Hr. auto.
 Qed.
 
 Lemma read_from_C data sizes w : Cst w -> wf_bytes data ->
